@@ -244,6 +244,13 @@ def elementary(rng, kind, family):
             # by a factor that makes it seventeen digits long
             computed = (1.0 + 3.141592653589793e-7) if rng.random() < 0.4 \
                 else None
+            if not computed and rng.random() < 0.4:
+                # typed numbers are taken exactly: a plane kilometres away
+                # that misses the origin by a fraction of a micrometre is
+                # not a plane through the origin
+                dval = Fr(rng.choice(['1e-6', '-1e-6', '3e-7', '-2e-7',
+                                      '-1e-5', '4e-6']))
+                scale = 10 ** rng.randint(4, 6)
             if computed and rng.random() < 0.7:
                 # where a band that is too wide shows: a plane that misses
                 # the origin by a micrometre or so, metres away
